@@ -942,6 +942,22 @@ pub fn thm_c10_registration_request<CS: CipherSuite>(input: &[u8]) -> (r: Option
     proof { broadcast use ga_axioms, seq_sub; lemma_lens::<CS>(); }
     match RegistrationRequest::<CS>::deserialize(input) { Ok(m) => Some(m.serialize()), Err(_) => None }
 }
+/// the key-pair API: a private key given as bytes and a public key given as bytes are accepted only in the encoding that the real
+/// encoders produce for the decoded key (one fixed length: no truncated / zero-padded / alternative spellings)
+pub fn thm_c10_private_key_slice<KG: KeGroup>(input: &[u8]) -> (r: Option<GenericArray<u8, KG::SkLen>>)
+    ensures r is Some ==> r->0@ == input@,
+        //@vacuity
+{
+    proof { KG::lemma_de_sk_canonical(input@); }
+    match KeyPair::<KG, PrivateKey<KG>>::from_private_key_slice(input) { Ok(kp) => Some(kp.private().serialize()), Err(_) => None }
+}
+pub fn thm_c10_public_key<KG: KeGroup>(input: &[u8]) -> (r: Option<GenericArray<u8, KG::PkLen>>)
+    ensures r is Some ==> r->0@ == input@,
+        //@vacuity
+{
+    proof { KG::lemma_de_pk_canonical(input@); }
+    match PublicKey::<KG>::deserialize(input) { Ok(pk) => Some(pk.serialize()), Err(_) => None }
+}
 pub fn thm_c10_registration_response<CS: CipherSuite>(input: &[u8]) -> (r: Option<GenericArray<u8, RegistrationResponseLen<CS>>>)
     ensures r is Some ==> r->0@ == input@,
         //@vacuity
